@@ -51,3 +51,26 @@ Definition f_div_int_int (a b : Z) : Q := rn (inject_Z a / inject_Z b).   (* a /
 Definition f_div (a b : Q) : Q := rn (a / b).                             (* float / float *)
 Definition f_mul (a b : Q) : Q := rn (a * b).                             (* float * float *)
 Definition f_min1 (x : Q) : Q := if Qle_bool 1 x then 1 else x.           (* min(1.0, x) *)
+
+(* ------------------------------------------------------------------ ScrollBar thumb arithmetic *)
+Open Scope Z_scope.
+
+(* ScrollBar.render from "thumb_height = ..." to "bottom_height = ..." ; floats are exact rationals
+   rounded by ScrollFloat.rn.  Returns (top_height, thumb_height, bottom_height). *)
+Definition thumb_geom (maxrow pos posmax : Z) (thumb_weight : Q) : Z * Z * Z :=
+  (* thumb_height = max(1, round(thumb_weight * maxrow)) *)
+  let thumb_height := Z.max 1 (rhe (f_mul thumb_weight (f_of_int maxrow))) in
+  (* top_weight = float(pos) / max(1, posmax) *)
+  let top_weight := f_div (f_of_int pos) (f_of_int (Z.max 1 posmax)) in
+  (* top_height = int((maxrow - thumb_height) * top_weight) *)
+  let top_height := qtrunc (f_mul (f_of_int (maxrow - thumb_height)) top_weight) in
+  (* if top_height == 0 and top_weight > 0: top_height = min(1, maxrow - thumb_height) *)
+  let top_height := if (top_height =? 0) && negb (Qle_bool top_weight 0)
+                    then Z.min 1 (maxrow - thumb_height) else top_height in
+  (* bottom_height = maxrow - thumb_height - top_height *)
+  (top_height, thumb_height, maxrow - thumb_height - top_height).
+
+(* thumb_weight = min(1.0, maxrow / max(1, ow_rows_max)) *)
+Definition thumb_weight_of (maxrow rows_max : Z) : Q :=
+  f_min1 (f_div_int_int maxrow (Z.max 1 rows_max)).
+
